@@ -638,6 +638,24 @@ def _one(case, ctx, faults):
         ctx.fault("device:" + ext)
         if prob:
             ctx.note("extended (%s): %s" % (ext, prob[0].split("/")[0]))
+        _, target = requested_format(tool, argv)
+        hit = (ext == "stdout_enospc" and target in (None, "-")) or \
+            (ext == "outfile_enospc" and target == "out.cnf")
+        if hit and klass != "help" \
+                and not any(_is_help_flag(a) for a in argv):
+            # a device without space ('-o /dev/full', a full disk): the
+            # complete formula cannot have been written, so the run must
+            # not end as a success (nor in a traceback)
+            if o.exc is not None and not isinstance(o.exc, OSError):
+                raise Violation("C18/%s/%s" % (tool, prob[0]),
+                                "%s %s\ndevice fault %s\n%r" %
+                                (tool, " ".join(map(repr, argv)), ext, o.exc))
+            if o.exc is None and o.status == 0 and klass == "formula":
+                raise Violation(
+                    "C18/%s/success-on-a-full-device" % tool,
+                    "%s %s\ndevice fault %s: exit status 0 although the "
+                    "output could not be written; stderr=%r" %
+                    (tool, " ".join(map(repr, argv)), ext, o.stderr[:300]))
         return
     if prob:
         raise Violation("C18/%s/%s" % (tool, prob[0]),
